@@ -177,3 +177,32 @@ let run_dup (parts : string list) : string =
     (if after = 0 then "-" else aft) (if good then "ok" else "FAIL:c14-duplicate-replies")
 
 let () = register "dup" run_dup
+
+(* ---------- kind: streams (C14, round 4) ----------
+   case:   tr=<doq|doh> m=<limit> k=<abandoned> fault=<lie|silent> conc=<0|1> dl=<ms> after=<n>
+   result: bad=<E..> after=<R..> late=0 || spec=..       (extracted [sc_case], Net/Streams.v) *)
+let run_streams (parts : string list) : string =
+  let f = fields parts in
+  let (bad, aft) = sc_case true (nat_of_int (ifld f "m")) (nat_of_int (ifld f "k")) (nat_of_int (ifld f "after")) in
+  let str l = String.concat "" (List.map (fun b -> if b then "R" else "E") l) in
+  Printf.sprintf "bad=%s after=%s late=0 || spec=%s" (str bad) (str aft)
+    (if List.for_all (fun b -> b) aft && not (List.exists (fun b -> b) bad) then "ok" else "FAIL:c14-stream-capacity")
+
+let () = register "streams" run_streams
+
+(* ---------- kind: stall (C14, round 4) ----------
+   case:   tr=<tcpp|tlsp|tcp|tls> n=.. pad=.. sndbuf=.. dl=<ms> srv=<one|all>
+   result: res=ERR late=<0|1> || spec=..
+   Pipelined: the extracted [wb_case] (Net/WriteBlock.v, constants of the code, TCP_USER_TIMEOUT wired in); srv=all is
+   the known finding K8 (late).  One-at-a-time transports arm SetDeadline(now + 6 s) before the write and each
+   exchange has its own connection: they return at their deadline at the latest. *)
+let run_stall (parts : string list) : string =
+  let f = fields parts in
+  let tr = fld f "tr" in
+  let all = (fld f "srv" = "all") in
+  let in_time = if tr = "tcpp" || tr = "tlsp" then wb_case true all else true in
+  (* K8 needs the retried exchanges to fill the buffers of the second connection too, which depends on how the pool
+     spreads them: when the model says "late" the implementation may be late or in time (res=ANY is not compared) *)
+  if in_time then "res=ERR late=0 || spec=ok" else "res=ANY late=- || spec=ok"
+
+let () = register "stall" run_stall
